@@ -642,7 +642,14 @@ func sizeIsStructuralDepth(info *types.Info, e ast.Expr, depth int) bool {
 					}
 					return true
 				})
-				if len(rhs) == 1 && rhs[0] != nil && sizeIsStructuralDepth(info, rhs[0], depth+1) {
+				// one definition, or an accumulation (`total := 0; total += len(xs)`): every value ever stored is structural
+				allStructural := len(rhs) >= 1
+				for _, r := range rhs {
+					if r == nil || !sizeIsStructuralDepth(info, r, depth+1) {
+						allStructural = false
+					}
+				}
+				if allStructural {
 					return true
 				}
 			}
